@@ -17,46 +17,48 @@ Theorem C04_output_is_v3 : forall (S : sig), sig_ok S -> forall o (f : font S) (
                m_creator m = Some NORAD_CREATOR /\ m_minor m = m_minor (f_meta S f).
 Proof. exact output_is_v3. Qed.
 
-(** the fixed point: a loaded font that is valid is saved and loaded again as an equal font *)
-Theorem C04_fixed_point : forall (S : sig), sig_ok S -> forall o (t : tree S) (f : font S),
-  load S t = Ok f -> font_valid S f ->
-  exists t', save S o f = Ok t' /\ exists f', load S t' = Ok f' /\ font_equiv S f f'.
-Proof.
-  intros S OK o t f _ Hv. destruct (save_load_roundtrip S OK o f Hv) as (t' & H1 & _ & H2). eauto.
-Qed.
-
-(** the reader only produces fonts the writer can represent: for a format-3 tree whose files
-    decode to values of the parts' domains ([sig_closed]: one lemma per part — parse_glif yields
-    valid glyphs, validate yields valid info, ...), with distinct layer directories and glif file
-    names on disk, outside the class below *)
+(** the reader only produces fonts the writer can represent: for EVERY format-3 tree norad loads
+    (norad's own part — no left-over public.objectLibs, unique default layer first, distinct layer
+    names, directories and glif file names, object libs only on identified guidelines — is proved
+    from the model of load; the per-part closedness [sig_closed], e.g. parse_glif yields valid
+    glyphs, is the hypothesis to be discharged by the part owners) *)
 Theorem C04_load_yields_valid : forall (S : sig), sig_ok S -> sig_closed S ->
   forall (t : tree S) (f : font S) mc m,
   load S t = Ok f -> t_meta S t = Some mc -> dec (P_meta S) mc = Some m -> m_version m = 3 ->
-  disk_wf S t -> ~ orphan_object_libs S t ->
   font_valid S f.
 Proof. exact load_yields_valid. Qed.
 
-(** full statement and its refutation: a tree with [public.objectLibs] in lib.plist and no
-    fontinfo.plist loads (the key stays in the font's lib) and can then not be saved *)
-Definition C04_full : Prop := forall (S : sig), sig_ok S -> forall o (t : tree S) (f : font S),
-  load S t = Ok f -> exists t', save S o f = Ok t'.
-Theorem C04_refuted_orphan_object_libs : ~ C04_full.
-Proof. exact orphan_object_libs_refutes. Qed.
-Theorem C04_orphan_object_libs_witness :
-  orphan_object_libs toy_sig toy_orphan_tree /\
-  exists f, load toy_sig toy_orphan_tree = Ok f /\ forall o, save toy_sig o f = Err SPreexistingObjectLibs.
-Proof. exact orphan_witness. Qed.
+(** the fixed point, at full strength: whatever format-3 tree norad loads, the loaded font is
+    saved (for every write option) and loaded again as an equal font *)
+Theorem C04_fixed_point : forall (S : sig), sig_ok S -> sig_closed S ->
+  forall o (t : tree S) (f : font S) mc m,
+  load S t = Ok f -> t_meta S t = Some mc -> dec (P_meta S) mc = Some m -> m_version m = 3 ->
+  exists t', save S o f = Ok t' /\ exists f', load S t' = Ok f' /\ font_equiv S f f'.
+Proof. exact fixed_point_full. Qed.
 
-(** numbers: a value within 2^-52 of a non-zero integer is written as that integer — inside the
-    tolerance of C01 but not "the same value": 1 + 2^-52 comes back as 1 *)
-Theorem C04_refuted_near_integer_rounded :
-  exists (v : Q) (t : Z), written_as_integer v t /\ within v (inject_Z t) /\ KnownClass_near_integer_rounded v t.
-Proof. eexists. eexists. exact near_integer_witness. Qed.
+(** regression examples of repaired behaviour: public.objectLibs without fontinfo.plist is dropped
+    at load and the font is saved (1c81824); duplicate layer names / directories, a misplaced
+    public.default and a glif file used twice are rejected at load (83f6c18, afd801a) *)
+Example C04_orphan_object_libs_removed :
+  exists f t', load toy_sig toy_orphan_tree = Ok f /\ d_get toy_sig OBJ (f_lib toy_sig f) = None /\
+               save toy_sig 0 f = Ok t'.
+Proof. exact orphan_regression. Qed.
+Example C04_duplicates_rejected :
+  load toy_sig (toy_dup_tree [(DEFAULT_LAYER_NAME, GLYPHS); (s "x", GLYPHS)] []) = Err LDuplicateLayerDirectory /\
+  load toy_sig (toy_dup_tree [(s "x", GLYPHS); (s "x", s "glyphs.x")] []) = Err LDuplicateLayerName /\
+  load toy_sig (toy_dup_tree [(s "x", GLYPHS); (DEFAULT_LAYER_NAME, s "glyphs.x")] []) = Err LReservedLayerName /\
+  load toy_sig (toy_dup_tree [(s "x", GLYPHS)] [(s "a", s "a.glif"); (s "b", s "a.glif")]) = Err LDuplicateGlyphFile /\
+  exists f, load toy_sig (toy_dup_tree [(s "y", s "glyphs.x"); (s "x", GLYPHS)] [(s "a", s "a.glif")]) = Ok f.
+Proof. exact duplicates_rejected. Qed.
+
+(** numbers: an integer is written only for an exactly integral value (cf70ca2), so 1 + 2^-52 is
+    no longer moved to 1 *)
+Example C04_near_integer_kept : ~ written_as_integer (4503599627370497 # 4503599627370496) 1.
+Proof. exact near_one_not_integer. Qed.
 
 (** Non-vacuity *)
 Example C04_laws_satisfiable : sig_ok toy_sig /\ sig_closed toy_sig.
 Proof. split; [exact toy_ok|exact toy_closed]. Qed.
 Example C04_fixed_point_example :
-  exists t f, save toy_sig 0 toy_font = Ok t /\ load toy_sig t = Ok f /\ font_valid toy_sig f /\
-              disk_wf toy_sig t /\ ~ orphan_object_libs toy_sig t.
+  exists t f, save toy_sig 0 toy_font = Ok t /\ load toy_sig t = Ok f /\ font_valid toy_sig f.
 Proof. exact fixed_point_example. Qed.
